@@ -113,7 +113,7 @@ fn dispatch(case: &Case, obs: &mut Obs) -> PropResult {
 pub fn run(ctx: &mut Ctx) {
 	ctx.rule = "mapping sets with 2..4 namespaces, nesting depth 0..4, outer classes in packages, names absent in the target namespace, any non-first target namespace; strata: stored target names simple with every outer class present, the same with outer classes missing (failure expected), and arbitrary stored names (consistency with the reference only). Non-trivial = a class nested at depth >=2 is present and extension is defined; distinct by hash of the serialised case".into();
 	ctx.assume("a nested class without a name in the target namespace whose outer class is missing: either outcome accepted (nothing to extend; statement silent)");
-	ctx.run_sub("simple_complete", ctx.tier.pick(32000, 1000000), || strategy(TargetStyle::Simple, false), dispatch);
-	ctx.run_sub("simple_outer_missing", ctx.tier.pick(16000, 600000), || strategy(TargetStyle::Simple, true), dispatch);
-	ctx.run_sub("arbitrary_names", ctx.tier.pick(16000, 600000), || strategy(TargetStyle::Arbitrary, true), dispatch);
+	ctx.run_sub("simple_complete", ctx.tier.pick(128000, 1000000), || strategy(TargetStyle::Simple, false), dispatch);
+	ctx.run_sub("simple_outer_missing", ctx.tier.pick(64000, 600000), || strategy(TargetStyle::Simple, true), dispatch);
+	ctx.run_sub("arbitrary_names", ctx.tier.pick(64000, 600000), || strategy(TargetStyle::Arbitrary, true), dispatch);
 }
